@@ -167,6 +167,12 @@ def _c11(pid, tier):
     return c11.check(pid, tier)
 
 
+def _c10(pid, tier):
+    from . import c10
+    return c10.check(pid, tier)
+
+
+REGISTRY["C10"] = _c10
 REGISTRY["C11"] = _c11
 REGISTRY["C04"] = _c04
 REGISTRY["C12"] = _c12
